@@ -73,6 +73,17 @@ Definition inner_struct (it : gitem) (v : gvariant) : gitem :=
      gi_where := snd (inner_struct_generics it v);
      gi_body := GStruct (gv_fields v) |}.
 
+(** the inner struct of variant [v] declares every type parameter of the enum that the variant's fields name
+    (the statement [C08gen_inner_scope_refuted] shows to fail in general; an item for which it is false does
+    not compile with the schema derive: E0401, findings F14 / F19).  The correspondence driver prints this
+    verdict per variant. *)
+Definition inner_scope_ok (it : gitem) (v : gvariant) : bool :=
+  forallb (fun P =>
+             forallb (fun f => negb (uses P (gf_ty f)) ||
+                               existsb (String.eqb P) (type_params (gi_params (inner_struct it v))))
+                     (gv_fields v))
+          (type_params (gi_params it)).
+
 (** for display: the names of the generics and the rendered where-clause of the inner struct of the
     [v]-th variant *)
 Definition inner_view (it : gitem) (v : nat) : list string * list string :=
